@@ -37,7 +37,7 @@ def _profile(rng):
     boxes = (1,) if r < 0.7 else (1, 2)
     ro = (3,) if rng.random() < 0.25 else ()
     return dict(nsess=nsess, nsteps=rng.randint(8, 25), boxes=boxes, readonly_sessions=ro,
-                checkpoint_every=rng.choice([0, 5, 8]))
+                checkpoint_every=rng.choice([0, 5, 8]), group=rng.choice([0.0, 0.0, 0.1]))
 
 
 def section_random(ctx, clauses) -> None:
